@@ -269,8 +269,10 @@ def sel_store(tier, big=False):
               subs={"s1": {"kind": "sel"}, "s2": {"kind": "direct"}})
 
 
-def api_mix(tier, k):
-    """role combinations for C13"""
+def api_mix(tier, k, free=False):
+    """role combinations for C13.  free=True: the variant run on free OS threads, where a metrics
+    snapshot taken while the store is running cannot be matched exactly (separate atomics): the
+    reader reads the state twice instead"""
     roles = {
         "prod": [D(1, "impl"), D(2, "trait")],
         "subm": [dict(S("add_sub", "s1"), via="store"), S("unsub", "s1")],
@@ -289,6 +291,8 @@ def api_mix(tier, k):
               ("prod", "read", "chanm", "stop"), ("prod", "subm", "chanm", "drop"),
               ("prod", "iterm", "chanm", "stop"), ("prod", "prod2", "stop"), ("prod", "iterd", "stop")]
     roles["prod2"] = [D(3, "store"), D(4, "impl")]
+    if free:
+        roles["read"] = [O("get_state"), O("get_state")]
     c = combos[k % len(combos)]
     if "iterm" in c or "iterd" in c:      # the store is stopped only after the iterator exists
         for r in ("stop", "close", "drop"):
@@ -298,7 +302,8 @@ def api_mix(tier, k):
     return _i("api%d" % k, progs, {1: 0, 2: 1, 3: 0, 4: 1}, cap=1, pol=pol,
               subs={"s1": {"kind": "direct"}, "s2": {"kind": "chan", "cap": 1, "pol": "block"},
                     "s3": {"kind": "iter", "cap": 1, "pol": "block"}, "s4": {"kind": "sel"}},
-              red_script={"r1": {0: red("D"), 1: red("D", eff("task"))}}, max_tasks=2)
+              red_script={"r1": {0: red("D"), 1: red("D", eff("task"))}}, max_tasks=2,
+              fine_reg=("reg" in c))       # run-time registration needs the finer park points to be matched
 
 
 # ---- heavier instances: model checking only (thorough tier), 10^6 .. 10^7 states
@@ -529,7 +534,7 @@ def table(pid, tier):
         insts = [api_mix(tier, k) for k in ks]
         inv = ["C13_NoDeadlock"]
         T = dict(mc=[(i, inv, []) for i in insts], gen=[(i, 500 if q else 4000) for i in insts[:3 if q else 10]],
-                 free=[(i, 40 if q else 200) for i in insts],
+                 free=[(api_mix(tier, k, free=True), 40 if q else 200) for k in ks],
                  live=[(i, ["Live_ClientsDone", "Live_StopReturns"]) for i in (insts[1:3] if q else insts[:12])])
     elif pid == "C14":
         insts = [iterator(tier, False), iterator(tier, True)]
